@@ -727,6 +727,17 @@ def net_stream(ctx, corr, n, gama_dir=None):
                         else:
                             skip = "failed"
                         continue
+                    if res.get("defect") is not None and res["defect"] < c["defect"]:
+                        # round 11 (C08_datum_generators_in_kernel): no coordinate is fixed and every observation class of
+                        # the family is invariant under the family's datum transformations, so the kernel of the design
+                        # matrix contains their span and the defect cannot be smaller than its dimension
+                        corr.count("net_defect_below_datum")
+                        corr.fail(f"free network ({c['fam']}, no fixed coordinate): gama-local reports defect {res['defect']} "
+                                  f"< {c['defect']} = number of datum transformations the observation classes are invariant "
+                                  f"under - the design matrix does not annihilate the datum generators ({label})",
+                                  {"stream": "net-defect", "family": c["fam"], "gkf": gkf, "alg": alg, "iterations": it,
+                                   "expected_defect": c["defect"], "defect": res["defect"]},
+                                  "LocalLinearization (rows) / LocalNetwork::project_equations", "")
                     if res.get("defect") != c["defect"]:
                         skip = skip or f"defect {res.get('defect')} (expected {c['defect']})"
                     runs.append((label, si, cons, res))
@@ -1238,7 +1249,7 @@ def replay(ctx, payload):
         print(json.dumps(payload.get("no_longer_checks"), indent=1)[:3000])
         return 1
     inp = f["input"]
-    if inp.get("stream") in ("net", "net-rate"):
+    if inp.get("stream") in ("net", "net-rate", "net-defect"):
         exe = Path(ctx.build_gama(sanitize=False, targets=("gama-local",))) / "gama-local"
         with tempfile.TemporaryDirectory(prefix="c08-") as tmp:
             for k in ("gkf", "gkf1", "gkf2"):
